@@ -140,6 +140,15 @@ def main(argv):
         data = json.load(open(replay))
         return mod.replay(data) if hasattr(mod, "replay") else 2
 
+    # watchdog: a hang is tool trouble (exit 2), never a verdict
+    import signal
+
+    def _timeout(signum, frame):
+        print(f"tool error: {pid} {tier} exceeded its time budget (watchdog)", flush=True)
+        traceback.print_stack(frame)
+        os._exit(2)
+    signal.signal(signal.SIGALRM, _timeout)
+    signal.alarm(int(os.environ.get("VERIF_WATCHDOG", "1500" if tier == "quick" else "14400")))
     ctx = Ctx(pid, tier, seed)
     # 1 extract ------------------------------------------------------------
     try:
